@@ -321,8 +321,12 @@ class Prop:
         if cfg.get("gc_mode") == "storm":
             # cyclic GC at every opportunity (on CPython 3.12 collections happen only on
             # the eval breaker, i.e. at byte-code boundaries: this visits all of them)
+            # (young generations at every opportunity; the oldest one is collected by hand at
+            # the end of every eighth op: when the interpreter would start a full collection of its
+            # own depends on how large the process heap has grown, i.e. on earlier runs)
+            gc.collect()
             gc.enable()
-            gc.set_threshold(1, 1, 1)
+            gc.set_threshold(1, 1, 1 << 30)
             env.probe("gc-storm-run")
         routed = []
         oapi.push_exception_handler(lambda ev: routed.append(ev), reraise_exceptions=False)
@@ -370,6 +374,8 @@ class Prop:
                 self.weakness(op, i)
             else:
                 self.graph_step(op, i)
+            if cfg.get("gc_mode") == "storm" and i % 8 == 7:
+                gc.collect()        # (the oldest generation: by hand, now and then)
             env.end_op()
             env.token(k, op.get("op", {}).get("k") if isinstance(op.get("op"), dict) else None,
                       tuple(h.count for h in S.handlers))
